@@ -213,7 +213,10 @@ def parseHistory (l : List Json) : Except String (List (Nat × Int × Int)) :=
 def handleE (j : Json) : Except String Json := do
   match ← fldStr j "op" with
   | "policy" =>
-    let p ← parsePolicy j
+    let p0 ← parsePolicy j
+    match (if p0.kind = .closedLoop then mkClosedLoop p0.conc p0.n p0.start else .ok p0) with
+    | .error e => pure (errJ e)
+    | .ok p =>
     let h ← oInt j "horizon"
     let d ← parseDraws (fldOpt j "draws")
     pure (exceptJ ((getReleaseTimes p h d).map (jList jInt)))
